@@ -5,8 +5,7 @@
   is a constant of the model (`PayObs.ofFrags`: immutable values) and is OBSERVED on the Go side
   (pointer overlap, overwrite probe, pristine twin).
 -/
-import Rtp.Proofs.H264Size
-import Rtp.Model.H264Obs
+import Rtp.Proofs.H264SizeObs
 namespace Rtp.Props.C08.H264
 open Rtp Rtp.Model.H264 Rtp.Model.H264.Obs Rtp.Pred Rtp.Proofs.H264
 
@@ -17,27 +16,6 @@ theorem c08_h264_bound (disable : Bool) (mtu : UInt16) (st : PayState) (input : 
   have := payload_bounded disable mtu st input f hf
   refine ⟨?_, this.2⟩
   intro h; subst h; simp at this
-
-theorem callOk_of_bounded (mtu : UInt16) (input : Option Bytes) (frags : List Bytes)
-    (h : Bounded mtu.toNat frags) : C08.callOk false mtu input (PayObs.ofFrags frags) = true := by
-  simp only [C08.callOk, PayObs.ofFrags, PayObs.owned, Bool.not_false, Bool.true_and, Bool.and_true,
-    Bool.false_or, Bool.and_eq_true, List.all_eq_true, decide_eq_true_eq, Bool.or_eq_true]
-  refine ⟨fun f hf => (h f hf).2, Or.inr ?_⟩
-  intro f hf
-  have := (h f hf).1
-  cases f with
-  | nil => simp at this
-  | cons a t => simp
-
-theorem histOk_hist (disable : Bool) (st : PayState) (calls : List (UInt16 × Option Bytes)) :
-    C08.histOk false calls
-      ((payloadHist disable st (calls.map (fun (m, b) => (m, b.getD [])))).map PayObs.ofFrags) = true := by
-  induction calls generalizing st with
-  | nil => simp [payloadHist, C08.histOk]
-  | cons c cs ih =>
-    obtain ⟨m, b⟩ := c
-    simp only [List.map_cons, payloadHist, C08.histOk, Bool.and_eq_true]
-    exact ⟨callOk_of_bounded m b _ (payload_bounded disable m st (b.getD [])), ih _⟩
 
 /-- the predicate the harness evaluates on the real payloader holds of the model's observation of
     every history of calls `(mtu, input)` (nil inputs included), with STAP-A enabled or disabled -/
